@@ -29,7 +29,7 @@ def run(res):
     return standard_flow(res, hx="c09", corr="C09_run", n=NCASES[res.tier], signature=signature, describe=describe, shard=75 if res.tier == 'quick' else 1000,
                          rule="histories of Setup/Ready(known, unknown, repeated)/Restore/Timeout ops on a real open_game_manager "
                               "(1 s timeouts run for real); distinct = distinct op sequences; non-trivial = at least one callback fired or one error returned",
-                         nontrivial=lambda c: any(o["out"] != "none" for o in c["trace"]),
+                         nontrivial=lambda c: any(o["out"] != "none" for o in c.get("trace") or []),
                          key=lambda c: json.dumps([c["tmo"], c["ops"]], sort_keys=True),
                          stats=stats,
                          assumptions=["syncsaga.ReadyGroup and timebank are abstracted as atomic events (their goroutines run to quiescence inside a step)",
@@ -42,7 +42,7 @@ def stats(cases):
     outs = {}
     sizes = {}
     for c in cases:
-        for o in c["trace"]:
+        for o in c.get("trace") or []:
             kinds[o["op"]["kind"]] = kinds.get(o["op"]["kind"], 0) + 1
             outs[o["out"]] = outs.get(o["out"], 0) + 1
             if o["op"]["kind"] == "setup":
